@@ -35,6 +35,7 @@ type Loop struct {
 	Uses       []*cexpr.Node
 	Split      *cexpr.Node
 	SplitVals  []*cexpr.Node
+	Entries    []Clause      // checked when the loop is entered (not assumed afterwards)
 	Havoc      []*cexpr.Node // extra havoc targets
 	Keep       []*cexpr.Node
 	AutoDone   bool
@@ -87,6 +88,7 @@ type Region struct {
 	Asserts []Clause // checked at every exit of the region
 	Uses    []*cexpr.Node
 	Line    int
+	Loops   map[int]*Loop // loop contracts, numbered in source order inside the region
 }
 
 // Sweep asks for thin safety-only contracts on every function matching a pattern.
@@ -138,7 +140,7 @@ var keywords = map[string]bool{
 	"readonly": true, "loop": true, "invariant": true, "variant": true, "let": true, "use": true,
 	"split": true, "ghost": true, "raises": true, "inline": true, "exact": true, "trusted": true,
 	"at": true, "assert": true, "assume": true, "lemma": true, "opt": true, "havoc": true, "with": true,
-	"pure": true, "keep": true, "end": true, "sweep": true, "region": true, "parent": true,
+	"pure": true, "keep": true, "end": true, "sweep": true, "region": true, "parent": true, "entry": true,
 }
 
 // ParseFile reads a contract file. pkg is the package path the file belongs to.
@@ -194,6 +196,7 @@ func Parse(text, path, pkg string) (*File, error) {
 	var curLemma *Lemma
 	var curSweep *Sweep
 	var curRegion *Region
+	inRegionLoop := false
 	var curAssert string
 	_ = curAssert
 	perr := func(rc rawClause, e error) error { return fmt.Errorf("%s:%d: %v", path, rc.line, e) }
@@ -373,6 +376,7 @@ func Parse(text, path, pkg string) (*File, error) {
 				if k < 0 {
 					return nil, perr(rc, fmt.Errorf("region needs '='"))
 				}
+				inRegionLoop = false
 				curRegion = &Region{Name: strings.TrimSpace(rc.text[:k]), Line: rc.line}
 				for _, x := range strings.Split(rc.text[k+1:], " > ") {
 					curRegion.Path = append(curRegion.Path, strings.TrimSpace(x))
@@ -381,10 +385,29 @@ func Parse(text, path, pkg string) (*File, error) {
 				curLoop, curCall = nil, nil
 				continue
 			}
-			if rc.kw == "loop" {
-				curRegion = nil
+			if rc.kw == "loop" && curRegion != nil {
+				n, err := strconv.Atoi(strings.Fields(rc.text)[0])
+				if err != nil {
+					return nil, perr(rc, err)
+				}
+				curLoop = &Loop{Ordinal: n}
+				if curRegion.Loops == nil {
+					curRegion.Loops = map[int]*Loop{}
+				}
+				curRegion.Loops[n] = curLoop
+				curCall = nil
+				inRegionLoop = true
+				continue
 			}
-			if curRegion != nil {
+			if curRegion != nil && inRegionLoop {
+				switch rc.kw {
+				case "invariant", "variant", "let", "use", "havoc", "keep", "entry", "split":
+					// handled by the generic loop clauses below
+				default:
+					inRegionLoop = false
+				}
+			}
+			if curRegion != nil && !inRegionLoop {
 				switch rc.kw {
 				case "parent":
 					curRegion.Parent = rc.text
@@ -505,6 +528,15 @@ func Parse(text, path, pkg string) (*File, error) {
 				} else {
 					cur.Lets = append(cur.Lets, l)
 				}
+			case "entry":
+				if curLoop == nil {
+					return nil, perr(rc, fmt.Errorf("entry outside loop"))
+				}
+				c, err := clause(rc)
+				if err != nil {
+					return nil, err
+				}
+				curLoop.Entries = append(curLoop.Entries, c)
 			case "invariant":
 				if curLoop == nil {
 					return nil, perr(rc, fmt.Errorf("invariant outside loop"))
